@@ -20,6 +20,7 @@ def check(ctx, prog):
     engine.rule_writeback(ctx, prog, want=("R-EVENTS-EXACT", "R-WRITEBACK-MONO", "R-ANNOUNCE"))
     engine.rule_wakeup(ctx, prog)
     engine.rule_queue_writers(ctx, prog, thorough=ctx.tier == "thorough")
+    engine.rule_stack_writers(ctx, prog, thorough=ctx.tier == "thorough")  # incl. the initial queue of a new solver: a constraint never queued is never checked
     model.rule_trigger_join(ctx, prog)
     model.rule_optional_zero(ctx, prog)
     optimize.rule_offset_primitives(ctx, prog)
@@ -28,6 +29,7 @@ def check(ctx, prog):
     propagators.rule_sole_candidate(ctx, prog)  # the one filtering clause decided here: a 'sole candidate' is counted against the bound it is forced to
     propagators.rule_affine_bound(ctx, prog)  # the second: bounds derived by division (own contribution, side, sign, rounding)
     kinds.rule_index_kind(ctx, prog)  # a number is a variable index or a shared-domain index, not both
+    kinds.rule_count_kind(ctx, prog)  # positions appended to the variable -> domain table are counted in the list of shared domains
     model.rule_split(ctx, prog)  # scope: the parts enumerated by the multiprocessing solver stay inside (and exactly cover) the declared domain
     model.rule_decision_cover(ctx, prog)
     optimize.rule_is_solved(ctx, prog)  # is_solved looks at every shared domain
